@@ -79,4 +79,9 @@ META = {
         "design_ref": "DESIGN.md section 6 C13",
         "note": "Trusted: simulated kernel replies built with go-nl's encoder, engine + z3; native replay uses real loop-back sockets for the GTP-U side. Bound: see evidence (capacities 1..2 / 1..3, one concrete run at 512).",
     },
+    "C10": {
+        "text": "Bounded model checking of the usage-report path on both sides of report.Handler. Data-plane side: buffnetlink.ServeMsg on a REPORT message encoded by the harness from symbolic fields (URR ids, SEIDs, six 64-bit counters, every single-cause trigger word) and the query/update/remove result conversions of the gtp5g driver: each session present gets exactly one notification with its reports in order and every field equal to what the kernel sent. PFCP side: ServeReport/serveUSAReport and the Modification/Deletion responses: a byte-level reference decoder checks owner address, peer SEID, one Usage Report IE per known URR in order, URR id, trigger word, NTP start/end times (absent for START/STOPT/MACAR), Volume Measurement present iff VOLUM with flags 0x07/0x3f per MNOP and the counters bit-exact, Duration Measurement iff DURAT; unknown sessions and URRs are dropped without disturbing the rest of the batch.",
+        "design_ref": "DESIGN.md section 6 C10",
+        "note": "Trusted: reply encoder built on go-nl's attribute encoder, reference IE decoder, engine + z3. Instants and durations are concrete samples (the conversions divide by 10^9 / go through float64). Bound: batches of <= 2 (quick) / 3 (thorough) reports.",
+    },
 }
